@@ -582,7 +582,10 @@ impl C20 {
                     let sent = if matches!(op, Op::Open { .. }) {
                         main.notify("textDocument/didOpen", json!({"textDocument": {"uri": uri, "languageId": "ucg", "version": 1, "text": text}}))
                     } else {
-                        main.notify("textDocument/didChange", json!({"textDocument": {"uri": uri, "version": step + 2}, "contentChanges": [{"text": text}]}))
+                        // full-text sync: the last entry of contentChanges is the current text; earlier
+                        // entries (1 in 4 edits carries one) are history
+                        let changes = if fnv(text.as_bytes()) % 4 == 0 { json!([{"text": "let superseded = ;\n"}, {"text": text}]) } else { json!([{"text": text}]) };
+                        main.notify("textDocument/didChange", json!({"textDocument": {"uri": uri, "version": step + 2}, "contentChanges": changes}))
                     };
                     if let Err(e) = sent.and_then(|_| main.barrier()) {
                         return Self::lsp_fail(o, e, &format!("{} (didOpen/didChange)", at), "session", rendered);
